@@ -40,7 +40,9 @@ Record s_step := mkSS {
   ss_en : bool;           (* the real thread made a step *)
   ss_pos : N;             (* where it is afterwards (codes below) *)
   ss_arr : bool;          (* producer inside RWMutex.Lock(): Lock has returned *)
-  ss_qlen : list N        (* per requester: 0 = SourceFromXxx has not returned a source; 1 + len(channel) otherwise *)
+  ss_qi : N;              (* channel lengths, per requester q_i = 0 while SourceFromXxx has not returned a source, *)
+  ss_qv : N               (* 1 + len(channel) afterwards: this step changed q_(qi-1) to qv (qi = 0: no change); a step
+                             of the real code that changes two of them is reported by the harness as anomaly 1 *)
 }.
 
 Record s_req := mkSR {
@@ -120,33 +122,38 @@ Definition shut (st : cstate) (i : nat) : bool :=
   | None => false
   end.
 
-Definition step_parts (first kept : N) (st : cstate) (s : s_step) : list bool * cstate :=
+(* the observed channel lengths after the step, from those before it *)
+Definition q_after (q : list N) (s : s_step) : list N :=
+  if ss_qi s =? 0 then q else set_nth (N.to_nat (ss_qi s - 1)) (ss_qv s) q.
+
+Definition step_parts (first kept : N) (st : cstate) (q : list N) (s : s_step) : list bool * cstate * list N :=
   let t := tid_of (ss_tid s) in
-  if ss_skip s then ([match t with TCons i => shut st i | _ => false end], st)
+  if ss_skip s then ([match t with TCons i => shut st i | _ => false end; ss_qi s =? 0], st, q)
   else
     let st' := cstep true first kept st t in
+    let q' := q_after q s in
     ([ (* a consumer entry that was attempted: its subscription is not shut down *)
        match t with TCons i => negb (shut st i) | _ => true end;
        Bool.eqb (changed st st') (ss_en s);
        pos_after st' t =? ss_pos s;
        Bool.eqb (arr_after st' t) (ss_arr s);
-       eqb_list (qlens st') (ss_qlen s) ], st').
+       eqb_list (qlens st') q' ], st', q').
 
-Fixpoint run_steps (first kept : N) (st : cstate) (steps : list s_step) : bool * cstate :=
+Fixpoint run_steps (first kept : N) (st : cstate) (q : list N) (steps : list s_step) : bool * cstate :=
   match steps with
   | [] => (true, st)
   | s :: steps' =>
-      let '(parts, st') := step_parts first kept st s in
-      if forallb (fun b => b) parts then run_steps first kept st' steps' else (false, st')
+      let '(parts, st', q') := step_parts first kept st q s in
+      if forallb (fun b => b) parts then run_steps first kept st' q' steps' else (false, st')
   end.
 
 (* diagnostic (not used by the verdict): index of the first step whose observation differs, and which parts *)
-Fixpoint first_bad (first kept : N) (st : cstate) (steps : list s_step) (k : N) : option (N * list bool) :=
+Fixpoint first_bad (first kept : N) (st : cstate) (q : list N) (steps : list s_step) (k : N) : option (N * list bool) :=
   match steps with
   | [] => None
   | s :: steps' =>
-      let '(parts, st') := step_parts first kept st s in
-      if forallb (fun b => b) parts then first_bad first kept st' steps' (k + 1) else Some (k, parts)
+      let '(parts, st', q') := step_parts first kept st q s in
+      if forallb (fun b => b) parts then first_bad first kept st' q' steps' (k + 1) else Some (k, parts)
   end.
 
 Definition req_final_parts (st : cstate) (i : nat) (c : req) (o : s_req) : list bool :=
@@ -184,7 +191,7 @@ Definition c08s_corresponds (k : c08s_case) : bool :=
       | None => false
       | Some rl =>
           let st0 := cinit (boot_hub first kept boot) live rl in
-          let '(ok, st) := run_steps first kept st0 steps in
+          let '(ok, st) := run_steps first kept st0 (map (fun _ => 0) reqs) steps in
           (anomaly =? 0) && ok && reqs_final st 0 (g_reqs st) reqs &&
           eqb_list (map N.of_nat (g_subs st)) order
       end
@@ -196,7 +203,7 @@ Definition c08s_diag (k : c08s_case) : option (N * list bool) :=
   | mkC08S first kept boot live reqs steps order anomaly tracker =>
       match reqs_of reqs with
       | None => Some (0, [])
-      | Some rl => first_bad first kept (cinit (boot_hub first kept boot) live rl) steps 0
+      | Some rl => first_bad first kept (cinit (boot_hub first kept boot) live rl) (map (fun _ => 0) reqs) steps 0
       end
   end.
 
